@@ -304,7 +304,9 @@ def run(ctx, only_cases=None):
     try:
         res = vlib.model_eval(PROP, terms)
         mism = [idx[k] for k, ok in enumerate(res) if not ok]
-        small = [k for k, i in enumerate(idx) if outs[i]["len0"] + outs[i]["len1"] < 120 and len(json.dumps(cases[i])) < 900]
+        def script_bytes(c):
+            return sum(len(ent_bytes(r)) * max(1, r.get("rep", 0)) + max(1, r.get("rep", 0)) for r in c.get("r0", []) + c.get("r1", []))
+        small = [k for k, i in enumerate(idx) if script_bytes(cases[i]) < 200 and len(json.dumps(cases[i])) < 900]
         small = small[:: max(1, len(small) // 30)][:30]
         vm_bad = sorted(small[k] for k in vlib.vm_crosscheck(PROP, [terms[k] for k in small]))
         ext_bad = sorted(k for k in small if not res[k])
